@@ -41,9 +41,11 @@ def gen_options(rng):
     fmt = rng.choice(FORMATS)
     psep = rng.choice(PSEPS)
     sep = rng.choice(SEPS)
-    colour = rng.choice(("never", "never", "always"))
+    # "auto" and no option at all (the default is auto): whether escapes are written then is not this property's
+    # business -- what remains after deleting them must be the undecorated output either way
+    colour = rng.choice(("never", "never", "never", "always", "always", "auto", "default"))
     tz_env, tz_env_off = rng.choice(TZ_LOCAL)
-    argv = ["--color", colour]
+    argv = ["--color", colour] if colour != "default" else []
     dt_off = None
     if file_mode == "name":
         argv.append("-n")
